@@ -170,9 +170,12 @@ def run_bin(exe, script, trace, timeout=600, runner=None, cwd=None, env=None):
     """run one corpus binary to completion, restarting after aborts. returns number of aborts"""
     if os.path.exists(trace):
         os.remove(trace)
-    resume, aborts = None, 0
+    resume, aborts, timeouts = None, 0, 0
+    # a native corpus binary runs under an address-space limit: code under test that allocates without bound (collect on
+    # an iterator that never ends) fails its allocation and aborts instead of exhausting the machine
+    wrap = ["prlimit", "--as=%d" % (6 << 30)] if runner is None and shutil.which("prlimit") else []
     while True:
-        args = (runner or [exe]) + [script, trace] + ([str(resume[0]), str(resume[1])] if resume else [])
+        args = wrap + (runner or [exe]) + [script, trace] + ([str(resume[0]), str(resume[1])] if resume else [])
         try:
             p = subprocess.run(args, stdout=subprocess.PIPE, stderr=subprocess.PIPE, text=True, timeout=timeout, errors="replace",
                                env=dict(env or os.environ, RUST_BACKTRACE="0"), cwd=cwd)
@@ -201,7 +204,10 @@ def run_bin(exe, script, trace, timeout=600, runner=None, cwd=None, env=None):
             f.write(('"res":{"k":"%s","msg":%s}}\n' % (kind, json.dumps(" | ".join(msg)[:300]))).encode())
         resume = (int(m.group(1)), int(m.group(2)) + 1)
         aborts += 1
-        if aborts > 400:
+        if "RT-TIMEOUT" in err or rc == -9:
+            timeouts += 1
+        if aborts > 400 or timeouts > 12 or (rc == -9 and runner is not None):
+            # (an interpreted binary that ran into the process timeout is not restarted: one such stall is evidence enough)
             # a tree that dies in hundreds of calls has been shown broken many times over: the rest of this binary's
             # script is not executed (its cases simply contribute fewer events)
             return aborts
@@ -283,12 +289,13 @@ def miri_run(crate, meta, outdir, log=print, jobs=8):
     env = cargo_env()
     env["CARGO_TARGET_DIR"] = os.path.join(WORK, "target-miri")
     env["MIRIFLAGS"] = "-Zmiri-disable-isolation"
+    env["RT_STEP_TIMEOUT"] = "900"        # the interpreter is two orders of magnitude slower
     os.makedirs(outdir, exist_ok=True)
     t0 = time.time()
     live = [b for b in meta["bins"] if any(c["id"] not in failed for c in b["cases"])]
     # build once (first binary), then run all in parallel
     def one(b):
-        return run_bin(None, os.path.join(crate, b["script"]), os.path.join(outdir, b["name"] + ".raw"), timeout=1500,
+        return run_bin(None, os.path.join(crate, b["script"]), os.path.join(outdir, b["name"] + ".raw"), timeout=900,
                        runner=["cargo", "+nightly", "miri", "run", "--offline", "-q", "--bin", b["name"], "--"], cwd=crate, env=env)
     aborts = 0
     if live:
